@@ -201,6 +201,9 @@ def main():
         chk.add(solver_objects_do_not_share_state, real_t=rt, dim=2, shape=(3, 4), dx1=0.2, dx2=0.37)
         chk.add(solver_objects_do_not_share_state, real_t=rt, dim=3, shape=(2, 3, 4), dx1=0.2, dx2=0.37)
         chk.add(solver_objects_do_not_share_state, real_t=rt, dim=3, shape=(3, 3, 3), dx1=0.5, dx2=0.125)
+    if chk.quick:
+        chk.add(fastdiag_solve, real_t="float32", dim=2, shape=(3, 4), dx=0.2, vector=False)
+        chk.add(fastdiag_solve, real_t="float32", dim=3, shape=(2, 3, 4), dx=0.2, vector=True)
     chk.bounds = [f"2D shapes {s2[:8]}... ({len(s2)}), 3D shapes ({len(s3)}), dx in {dxs}, precisions {rts}", "rhs cells symbolic in [-1,1]; prior solution and spectral buffer contents arbitrary symbolic",
                   f"tolerances (absolute, rhs in [-1,1]): {TOL}"]
     chk.outside = ["sizes above the enumerated ones (the property's 'sizes 2..64')", "rounding inside solve() (exact product of the concrete float eigen-tables)", "LAPACK (its results are data)"]
